@@ -22,10 +22,33 @@ def configs(tier):
     ]
 
 
+def bcat_work(items):
+    from mc.checks import c06b
+
+    return c06b.work(items, ID)
+
+
 def run(ctx):
     physics.explore(ctx, ID, configs(ctx.tier))
     physics.explore_register(ctx, ID, ctx.tier == "quick")
+    # the conditional update of the unmeasured mode on NON-Gaussian states of the bosonic simulator (complex weights and means,
+    # re-weighted per peak): cat states entangled with a second mode, post-selected homodyne / heterodyne on either mode,
+    # against a dense Fock reference (family shared with C06, mc/checks/c06b.py)
+    from mc.checks import c06b
+
+    n0 = ctx.n
+    for r in ctx.pmap(bcat_work, [t[3] for t in c06b.tasks(ctx.tier == "quick")]):
+        ctx.add(r)
+        if ctx.time_left() < 0:
+            ctx.close()
+            ctx.cap_hit("time budget hit in the bosonic cat-state family")
+            break
+    ctx.stats["bosonic_cat_conditional_update_cases"] = ctx.n - n0
 
 
 def replay(case):
+    if case.get("bosonic_cat"):
+        from mc.checks import c06b
+
+        return c06b.replay(case, ID)
     return physics.replay_case(ID, case)
